@@ -240,7 +240,8 @@ func runCorrupt(sink *Sink, work string, seed uint64, shard, nshard, n int, full
 			os.Exit(2)
 		}
 		cleanLog, frames, ends, clean := parseSet(set.Names, set.Data)
-		if !clean || !prefixOfHist(cleanLog, wr.Hist) || len(withoutHeads(cleanLog)) != len(wr.Hist) {
+		okh, nh := matchHist(cleanLog, wr.Hist)
+		if !clean || !okh || nh != len(wr.Hist) {
 			sink.finding(Finding{ID: sc.ID, Class: "violation", Kind: "clean-write-mismatch", Detail: "closed log does not parse to the records handed to Save", Sig: "clean-write-mismatch", Scenario: sc})
 			continue
 		}
@@ -250,7 +251,9 @@ func runCorrupt(sink *Sink, work string, seed uint64, shard, nshard, n int, full
 				writtenSnaps[[2]uint64{l.Index, l.Term}] = true
 			}
 		}
-		sink.stats.Cases++
+		if shard == 0 {
+			sink.stats.Cases++
+		}
 		sink.sample(map[string]interface{}{"image_of": sc, "files": len(set.Names), "bytes": totalLen(set)})
 		for fi, name := range set.Names {
 			orig := set.Data[name]
@@ -343,19 +346,6 @@ func runCorrupt(sink *Sink, work string, seed uint64, shard, nshard, n int, full
 	os.RemoveAll(base)
 }
 
-func withoutHeads(l []Logical) []Logical {
-	var out []Logical
-	seen := map[[3]uint64]bool{}
-	_ = seen
-	for _, x := range l {
-		if x.Kind == "snap" && x.Index == 0 {
-			continue
-		}
-		out = append(out, x)
-	}
-	return out
-}
-
 func totalLen(s *FileSet) int {
 	t := 0
 	for _, n := range s.Names {
@@ -428,7 +418,9 @@ func runSnap(sink *Sink, work string, seed uint64, shard, nshard, n int, trace b
 			names = append(names, rc.name)
 		}
 		sort.Strings(names)
-		sink.stats.Cases++
+		if shard == 0 {
+			sink.stats.Cases++
+		}
 		sink.sample(map[string]interface{}{"snapshot_set": names, "sizes": func() []int {
 			var o []int
 			for _, n := range names {
